@@ -126,10 +126,10 @@ func (c *Collection) StartDCPFeed(
 
 	if args.Dump {
 		feed.events.push(nil) // push an eof
-	} else {
-		// Register the feed with the collection for future notifications:
-		c.bucket.collectionFeeds[c.DataStoreNameImpl] = append(c.bucket.collectionFeeds[c.DataStoreNameImpl], feed)
 	}
+	// Register the feed with the collection: for future notifications (unless it is a dump), and so
+	// that dropping the collection or shutting the bucket down stops it, dump or not.
+	c.bucket.collectionFeeds[c.DataStoreNameImpl] = append(c.bucket.collectionFeeds[c.DataStoreNameImpl], feed)
 	go feed.run()
 	return nil
 }
@@ -180,7 +180,7 @@ func (c *Collection) _postEvent(event *sgbucket.FeedEvent) {
 	feeds := c.bucket.collectionFeeds[c.DataStoreNameImpl]
 
 	for _, feed := range feeds {
-		if feed != nil {
+		if feed != nil && !feed.args.Dump {
 			if feed.args.KeysOnly {
 				var eventNoValue sgbucket.FeedEvent = *event // copies the struct
 				eventNoValue.Value = nil
